@@ -502,7 +502,7 @@ class _Gen(object):
         if cur > 300:
             s = {'kind': 'setprec', 'actor': actor, 'value': {'t': 'int', 'v': pick_prec(r, 300)}, 'id': self.new_id()}
             self._track(s); out.append(s)
-        if c < 0.7:
+        if c < 0.55:
             cbname = r.choice(['cosexp', 'expneg', 'poly', 'gammaf'])
             g = {'kind': 'call', 'actor': actor, 'op': 'f:diffs', 'id': self.new_id(),
                  'args': [catalogue.CB(cbname, r.randint(1, 3), r.randint(1, 3)), catalogue.real_spec(r, -2, 2, cfg={'nostr': True})]}
@@ -541,6 +541,34 @@ class _Gen(object):
                     out.append({'kind': 'call', 'actor': actor, 'op': 'close:', 'id': self.new_id(), 'args': [{'t': 'obj', 'i': gid}]})
                 else:
                     out.append({'kind': 'drop', 'obj': gid, 'id': self.new_id()})
+        elif c < 0.85 and actor not in ('iv', 'fp'):
+            # callable objects made by the library around a user function, kept and called later at other
+            # precisions: autoprec / memoize / maxcalls / diffun wrappers, the decorator form of the managers
+            kind = r.choice(['autoprec', 'memoize', 'maxcalls', 'diffun', 'deco', 'deco'])
+            cb = catalogue.CB(r.choice(['gammaf', 'cosexp', 'expneg', 'divf', 'zetaf']), r.randint(1, 3), r.randint(1, 3))
+            if kind == 'deco':
+                m = r.choice(['workprec', 'workdps', 'extraprec', 'extradps'])
+                n = r.randint(1, 300) if m == 'workprec' else (r.randint(1, 90) if m == 'workdps' else r.randint(-15, 60))
+                o = {'kind': 'call', 'actor': actor, 'op': 'mkdeco:' + m, 'id': self.new_id(), 'args': [catalogue.I(n), cb]}
+                if r.random() < 0.5:
+                    o['kwargs'] = {'normalize_output': catalogue.I(r.randint(0, 1))}
+            elif kind == 'maxcalls':
+                o = {'kind': 'call', 'actor': actor, 'op': 'f:maxcalls', 'id': self.new_id(), 'args': [cb, catalogue.I(r.randint(1, 4))]}
+            elif kind == 'diffun':
+                o = {'kind': 'call', 'actor': actor, 'op': 'f:diffun', 'id': self.new_id(), 'args': [cb, catalogue.I(r.randint(1, 3))]}
+            else:
+                o = {'kind': 'call', 'actor': actor, 'op': 'f:' + kind, 'id': self.new_id(), 'args': [cb]}
+            out.append(o)
+            for _ in range(r.randint(2, 5)):
+                if r.random() < 0.6:
+                    s = {'kind': 'setprec', 'actor': actor, 'value': {'t': 'int', 'v': pick_prec(r, 200)}, 'id': self.new_id()}
+                    self._track(s); out.append(s)
+                cl = {'kind': 'call', 'actor': actor, 'op': 'call:', 'id': self.new_id(),
+                      'args': [{'t': 'obj', 'i': o['id']}, catalogue.real_spec(r, -2, 2, sign=0, cfg={'nostr': True})]}
+                self.maybe_fault(cl, True)
+                if cl.get('fault', {}).get('kind') == 'F1':
+                    cl['fault']['shim_of'] = o['id']      # the user function was handed over when the wrapper was made
+                out.append(cl)
         else:
             o = {'kind': 'call', 'actor': actor, 'op': 'f:odefun', 'id': self.new_id(),
                  'args': [catalogue.CB(r.choice(['ode_exp', 'ode_lin', 'ode_rat']), r.randint(1, 2)), catalogue.I(0), catalogue.I(1)]}
